@@ -497,8 +497,19 @@ PairDirect(k1, w1, k2, w2, d) ==
 PairDirectIdx(u) == { <<k1, w1, k2, w2, d>> \in ((1..3) \X {1, 2, 4} \X (1..3) \X {2, 4, 8} \X (1..7)) :
                         w1 < w2 /\ d >= w1 /\ d < w2 /\ Keep(k1 + 3 * w1 + 5 * k2 + 7 * w2 + 11 * d) }
 
+\* two registered ranges one byte apart: the byte between them belongs to no range
+GapCase(w, pos) ==
+  LET ob == AllowBaseS(5)
+      bytesA == [k \in 1..12 |-> (k * 5) % 256]
+      bytesB == [k \in 1..12 |-> (k * 7 + 1) % 256]
+      a == AddN(ob, pos)
+  IN [BaseCase EXCEPT !.id = <<"gap", w, pos, 0, 0, 0, 0>>, !.fam = "bounds", !.vm = "nodata",
+                      !.allow = << [base |-> ob, bytes |-> bytesA], [base |-> AddN(ob, 13), bytes |-> bytesB] >>,
+                      !.prog = Flat(LddwSlots(3, a) \o << LdxI(w, 0, 3, 0), ExitI >>)]
+GapCases == { GapCase(w, pos) : w \in Widths, pos \in {4, 8, 10, 11, 12, 13, 14, 17, 23, 24} }
+
 BoundsCases(u) ==
-  NestedCases \cup
+  NestedCases \cup GapCases \cup
   { PairCaseOf(t) : t \in PairIdx(u) } \cup
   { PairDirect(t[1], t[2], t[3], t[4], t[5]) : t \in PairDirectIdx(u) } \cup
   { DirectCaseOf(t[1], t[2], t[3], t[4]) : t \in DirectIdx(u) } \cup
@@ -751,7 +762,54 @@ FlowUaw(wk, o) ==
   IN [WithPkt([BaseCase EXCEPT !.vm = "raw"], 16) EXCEPT !.id = <<"uaw", wk, o, 0, 0, 0, 0>>, !.fam = "flow", !.helpers = {2},
         !.prog = Flat(pre \o w \o use \o tail)]
 
+\* alias, continued: 3 a stack pointer built without ever copying r10 (mov r1, -64 ; add r1, r10) used
+\* deeper than any direct [r10+off] access; 4 a packet load, a store into the same packet bytes
+\* through r1, the same packet load again
+FlowAlias2(k, w) ==
+  IF k = 3
+  THEN [BaseCase EXCEPT !.id = <<"alias", k, w, 0, 0, 0, 0>>, !.fam = "flow", !.vm = "nodata",
+          !.prog = Flat(<< StI(8, 10, -8, 7), Mov64I(1, -256), I(15, 1, 10, 0, 0),         \* add64 r1, r10
+                           StI(w, 1, 0, 42), LdxI(w, 0, 1, 0), LdxI(8, 2, 10, -8), Add64R(0, 2), ExitI >>)]
+  ELSE [WithPkt([BaseCase EXCEPT !.vm = "raw"], 16) EXCEPT !.id = <<"alias", k, w, 0, 0, 0, 0>>, !.fam = "flow",
+          !.prog = Flat(<< LdAbsI(w, 0), Mov64R(6, 0), StI(w, 1, 0, 90), LdAbsI(w, 0), I(103, 0, 0, 0, 8), Add64R(0, 6), ExitI >>)]
+
+\* use after write, as a base address: r0 is a valid pointer, is used, is rewritten by a helper
+\* (which returns a small integer - not an address of any region), and is used again the same way
+FlowUawMem(w) ==
+  [WithPkt([BaseCase EXCEPT !.vm = "raw"], 16) EXCEPT !.id = <<"uawmem", w, 0, 0, 0, 0, 0>>, !.fam = "flow", !.helpers = {2},
+     !.prog = Flat(<< Mov64R(0, 1), LdxI(w, 6, 0, 3), Mov64I(1, 0), Mov64I(2, 0), Mov64I(3, 0), Mov64I(4, 0), Mov64I(5, 0),
+                      CallI(2), LdxI(w, 6, 0, 3), Mov64R(0, 6), ExitI >>)]
+
+\* join, for conditional jumps: two conditional jumps on the same operands in a row, the second
+\* reached only by a taken jump of the OTHER width class whose comparison came out differently
+FlowJoinJmp(k) ==
+  LET first == IF k = 1 THEN I(22, 2, 0, 1, 9) ELSE I(21, 2, 0, 1, 9)      \* jeq32 / jeq r2, 9, +1 (taken)
+      a == IF k = 3 THEN I(38, 1, 0, 3, 5) ELSE I(37, 1, 0, 3, 5)           \* jgt32 / jgt r1, 5, +3
+      b == IF k = 3 THEN I(22, 1, 0, 3, 5) ELSE I(21, 1, 0, 3, 5)           \* jeq32 / jeq r1, 5, +3   <- target
+  IN [BaseCase EXCEPT !.id = <<"joinj", k, 0, 0, 0, 0, 0>>, !.fam = "flow", !.vm = "nodata",
+        !.prog = Flat(<< Mov64I(1, 7), Mov64I(2, 9), first, a, b, Mov64I(0, 2), ExitI, Mov64I(0, 48), ExitI >>)]
+
+\* loops: a body of a x `add64 r0, 1` and b x `mov64 r3, r4` (4 and 3 bytes of x86 each: every code
+\* distance occurs) run twice, closed by a conditional or an unconditional backward jump; and a loop
+\* whose header directly follows a conditional jump, dividing by a register that changes in the loop
+FlowLoop(a, b, uncond) ==
+  LET body == [k \in 1..(a + b) |-> IF k <= a THEN Add64I(0, 1) ELSE Mov64R(3, 4)]
+      n == a + b
+  IN [BaseCase EXCEPT !.id = <<"loop", a, b, uncond, 0, 0, 0>>, !.fam = "flow", !.vm = "nodata",
+        !.prog = Flat(<< Mov64I(0, 0), Mov64I(4, 44), Mov64I(5, 2) >> \o body
+                      \o (IF uncond = 0 THEN << Add64I(5, -1), I(85, 5, 0, -(n + 2), 0), ExitI >>                 \* jne r5, 0, back
+                          ELSE << Add64I(5, -1), JeqI(5, 0, 1), JaI(-(n + 3)), ExitI >>))]
+FlowLoopDiv(o) ==
+  [BaseCase EXCEPT !.id = <<"loopdiv", o, 0, 0, 0, 0, 0>>, !.fam = "flow", !.vm = "nodata",
+     !.prog = Flat(<< Mov64I(6, 100000), Mov64I(2, 5), Mov64I(5, 3), JeqI(5, 0, 4),
+                      I(o, 6, 2, 0, 0), Add64I(2, 1), Add64I(5, -1), I(85, 5, 0, -4, 0), Mov64R(0, 6), ExitI >>)]
+
 FlowCases(u) ==
+  { FlowAlias2(k, w) : k \in {3, 4}, w \in Widths } \cup
+  { FlowUawMem(w) : w \in Widths } \cup
+  { FlowJoinJmp(k) : k \in 1..3 } \cup
+  { FlowLoop(t[1], t[2], t[3]) : t \in { x \in (0..40) \X (0..3) \X {0, 1} : x[1] + x[2] > 0 /\ (Deep \/ x[1] >= 20) } } \cup
+  { FlowLoopDiv(o) : o \in {63, 60, 159, 156} } \cup
   { FlowDead(k) : k \in {1, 2} } \cup
   { FlowJoin(oi, t) : oi \in 1..Len(JoinOps), t \in {0, 1} } \cup
   { FlowAlias(k, w) : k \in {1, 2}, w \in Widths } \cup
